@@ -191,7 +191,8 @@ def negN (need : Nat) (ds : List Nat) (sciExp : Int) (o : WOpts) (b : WBuf) : Re
     else do
       let b ← b.set 1 o.dp
       let b ← b.set 2 48
-      padZeros b 3 count exact
+      -- `digit_count += 1`: the `0` after the point is a written digit (/repo fix of the carry padding)
+      padZeros b 3 (count + 1) (minExactDigits (count + 1) o)
   else if tr.2 then do
     let b ← b.set 1 o.dp
     let x ← b.get cursor
